@@ -115,20 +115,14 @@ func r06_1(c *Ctx, rule string) {
 	c.ObPrecedes(rule, base+"/id-counter/before-every-stat", lit, nil, isStore, func(in ssa.Instruction) bool { return c.statSend(in, true) }, "the id increment", "SendMsg(STAT)")
 	// independent of fileCanRequestData
 	x := c.explorer(lit)
-	for _, call := range c.P.CallsTo(lit, "fsutil.fileCanRequestData") {
-		if cl, ok := call.(*ssa.Call); ok {
-			c.ObReachable(rule, base+"/id-counter/counts-non-files", lit, map[string]bool{x.KeyAtEntry(cl): false}, isStore, "the id increment", "the entry is not requestable (directory, link, device)")
-		}
+	reqs := c.requestableTests(lit, x)
+	if len(reqs) > 0 {
+		c.ObReachable(rule, base+"/id-counter/counts-non-files", lit, reqPins(reqs, false), isStore, "the id increment", "the entry is not requestable (directory, link, device)")
 	}
 	// announce after publish: for a requestable entry the id is registered
 	// before the STAT that lets the receiver request it
-	if fcd := c.P.CallsTo(lit, "fsutil.fileCanRequestData"); len(fcd) > 0 {
-		as := map[string]bool{}
-		for _, call := range fcd {
-			if cl, ok := call.(*ssa.Call); ok {
-				as[x.KeyAtEntry(cl)] = true
-			}
-		}
+	if len(reqs) > 0 {
+		as := reqPins(reqs, true)
 		c.ObPrecedes(rule, base+"/registered-before-announced", lit, as, func(in ssa.Instruction) bool { return in == ssa.Instruction(upd) }, func(in ssa.Instruction) bool { return c.statSend(in, true) }, "registering the id in sender.files", "sending the STAT of a requestable entry")
 	}
 	// pre-increment key
@@ -160,29 +154,24 @@ func r06_2(c *Ctx, rule string) {
 		mu, ok := in.(*ssa.MapUpdate)
 		return ok && isFieldLoad(mu.Map, "fsutil.sender.files")
 	}
-	calls := c.P.CallsTo(lit, "fsutil.fileCanRequestData")
-	c.R.Floor(rule, "calls of fileCanRequestData in the sender's walk callback", len(calls), 1)
-	as := map[string]bool{}
-	for _, call := range calls {
-		if cl, ok := call.(*ssa.Call); ok {
-			as[x.KeyAtEntry(cl)] = false
-			c.R.Check(c.DerivesFrom(cl.Call.Args[0], func(v ssa.Value) bool { return isFieldLoad(v, "types.Stat.Mode") }, 4), rule, base+"/predicate-arg", c.pos(cl), "applied to the stat's mode", "fileCanRequestData is not applied to the stat's mode")
-		}
+	// (the predicate may be the shared function, FileMode.IsRegular or the mask test written out)
+	reqs := c.requestableTests(lit, x)
+	c.R.Floor(rule, "requestable tests (mode & ModeType == 0) in the sender's walk callback", len(reqs), 1)
+	for _, t := range reqs {
+		c.R.Check(c.DerivesFrom(t.arg, func(v ssa.Value) bool { return isFieldLoad(v, "types.Stat.Mode") }, 4), rule, base+"/predicate-arg", c.pos(t.site), "applied to the stat's mode", "fileCanRequestData is not applied to the stat's mode")
 	}
-	c.ObUnreachable(rule, base+"/register-only-regular", lit, as, isUpd, "registering a requestable id", "fileCanRequestData(mode) is false")
-	// the predicate itself
-	f := c.Fn(rule, "fsutil.fileCanRequestData")
+	c.ObUnreachable(rule, base+"/register-only-regular", lit, reqPins(reqs, false), isUpd, "registering a requestable id", "fileCanRequestData(mode) is false")
+	// the same predicate on the receiving side
+	if loop := recvLoop(c, rule); loop != nil {
+		rx := c.explorer(loop)
+		c.R.Check(len(c.requestableTests(loop, rx)) >= 1, rule, c.name(loop)+"/same-predicate", c.P.Pos(loop.Pos()), "the receiver registers ids under the same predicate", "the receiver does not use fileCanRequestData (mode & ModeType == 0) to decide which STATs get an id")
+	}
+	// the shared function, while it exists, is that predicate
+	f := c.P.Fn("fsutil.fileCanRequestData")
 	if f == nil {
 		return
 	}
-	var want int64 = -1
-	for _, pk := range c.P.SSA.AllPackages() {
-		if pk.Pkg.Path() == "io/fs" {
-			if k, ok := pk.Pkg.Scope().Lookup("ModeType").(*types.Const); ok {
-				fmt.Sscan(k.Val().ExactString(), &want)
-			}
-		}
-	}
+	want := c.modeTypeMask()
 	ok := false
 	eng.Instrs(f, func(in ssa.Instruction) {
 		r, isR := in.(*ssa.Return)
@@ -205,10 +194,6 @@ func r06_2(c *Ctx, rule string) {
 		}
 	})
 	c.R.Check(ok && want > 0, rule, "fsutil.fileCanRequestData/definition", c.P.Pos(f.Pos()), "returns m & io/fs.ModeType == 0", "fileCanRequestData is no longer `m & os.ModeType == 0`: sender and receiver (and older peers) disagree on which STATs carry a requestable id")
-	// same function object on the receiving side
-	if loop := recvLoop(c, rule); loop != nil {
-		c.R.Check(len(c.P.CallsTo(loop, "fsutil.fileCanRequestData")) >= 1, rule, c.name(loop)+"/same-predicate", c.P.Pos(loop.Pos()), "the receiver registers ids with the same function", "the receiver does not use fileCanRequestData to decide which STATs get an id")
-	}
 }
 
 func r06_3(c *Ctx, rule string) {
